@@ -162,8 +162,12 @@ def _check_dag(case):
 
 # ---- map-level faults --------------------------------------------------------------------------------------------
 def _snapshot(folder):
+    """Every directory and every file with its content (loading the previous run's RunInfo re-dumps it with the same
+    bytes: that is not counted as altering the folder)."""
     out = {}
-    for root, _, files in os.walk(folder):
+    for root, dirs, files in os.walk(folder):
+        for dn in dirs:
+            out[os.path.relpath(os.path.join(root, dn), folder) + "/"] = "dir"
         for fn in files:
             path = os.path.join(root, fn)
             with open(path, "rb") as fh:
@@ -203,20 +207,24 @@ def _map_cases(tier, rng):
         r0 = rng.choice(mapped_roots)
         faults = ["missing-input", "surplus-input", "unknown-storage", "executor-without-parallel", "wrong-rank"]
         # zipped dimension mismatch: some index shared by two root arrays
-        ax = {}
+        zipped = []  # (an index name zips two arrays when they carry it in the *same* MapSpec)
         for f in prog["funcs"]:
             if f.get("spec"):
+                ax = {}
                 for nme, axes in f["spec"]["inputs"]:
                     if nme in prog["inputs"] and not prog["inputs"][nme].get("omit"):
                         for i, a in enumerate(axes):
                             if a is not None:
                                 ax.setdefault(a, set()).add((nme, i))
-        zipped = [(a, sorted(v)) for a, v in ax.items() if len({n_ for n_, _ in v}) >= 2]
+                zipped += [(a, sorted(v)) for a, v in ax.items() if len({n_ for n_, _ in v}) >= 2]
         if zipped:
             faults.append("zip-mismatch")
         faults += ["mapspec-signature-mismatch", "inconsistent-axes", "axis-swap-in-consumer", "axis-rename-in-consumer"]
         for ft in faults:
-            yield {"prog": prog, "fault": ft, "target": r0, "zipped": zipped[:1], "seed": rng.randrange(10**6)}
+            yield {"prog": prog, "fault": ft, "target": r0, "zipped": zipped[:1], "seed": rng.randrange(10**6),
+                   # (only for faults that do not depend on what the folder held before)
+                   "empty_folder": ft in ("unknown-storage", "executor-without-parallel", "surplus-input")
+                   and rng.random() < 0.4}
 
 
 def _check_map(case):
@@ -234,6 +242,10 @@ def _check_map(case):
                    **progs.map_kwargs(prog))
         except Exception as e:  # noqa: BLE001
             return [f"valid-base-case-raised-{type(e).__name__}"]
+        if case.get("empty_folder"):
+            # the folder exists but holds no run yet (created by the user, or left by an aborted start)
+            shutil.rmtree(folder)
+            os.makedirs(folder)
         before = _snapshot(folder)
         inputs = progs.real_inputs(prog)
         kw = {"parallel": False, "storage": "file_array"}
@@ -353,6 +365,24 @@ def _check_map(case):
             try:
                 p1 = progs.build_pipeline(build_prog)
                 p1.map(progs.real_inputs(build_prog), parallel=False, storage="dict", **progs.map_kwargs(build_prog))
+                bad.append(f"{fault}: accepted (fresh run)")
+            except Exception:  # noqa: BLE001
+                if log0:
+                    bad.append(f"{fault}: user functions ran ({len(log0)} calls) before the rejection (fresh run)")
+            finally:
+                progs.set_log(None)
+        mapped_somewhere = any(n_ == case.get("target") for f in prog["funcs"] if f.get("spec") for n_, _ in f["spec"]["inputs"])
+        has_default = any(case.get("target") in f.get("defaults", {}) for f in prog["funcs"])
+        really_faulty = {"missing-input": not has_default, "surplus-input": True, "wrong-rank": mapped_somewhere,
+                         "zip-mismatch": True}.get(fault, False)
+        if really_faulty and build_prog is prog:
+            # the request is ill-formed on its own: also a run without any previous folder (which could refuse the request
+            # merely for differing from the previous run) must reject it before user code runs
+            log0 = []
+            progs.set_log(log0)
+            try:
+                p1 = progs.build_pipeline(prog)
+                p1.map(inputs, parallel=False, storage="dict", **progs.map_kwargs(prog))
                 bad.append(f"{fault}: accepted (fresh run)")
             except Exception:  # noqa: BLE001
                 if log0:
